@@ -195,6 +195,7 @@ class Run:
         self.sessions = []
         self.sess_cfg = plan.get("sessions", [])
         self.results = []  # per op: dict
+        self.session_failures = []
         self.wire = {}  # idx -> list of dicts (decoded request summaries) in tx order
         self.wire_dec = {}  # (idx, serial) -> oracle.decode_wire result
         self.genuine = {}  # "opid:k" -> Reply (pristine clone source)
@@ -401,6 +402,8 @@ class Run:
             kw["user"] = self.make_user(cfg["user"])
         if cfg.get("engine_id"):
             kw["engine_id"] = bytes.fromhex(cfg["engine_id"])
+        elif cfg.get("engine_id_empty"):
+            kw["engine_id"] = b""  # an explicit but empty engine id means "discover", like None
         kw["timeout"] = cfg.get("timeout_ns", 2_000_000_000) / 1e9
         if "max_repetitions" in cfg:
             kw["max_repetitions"] = cfg["max_repetitions"]
@@ -478,6 +481,8 @@ class Run:
             return
         s = op.get("s", 0)
         sess = self.sessions[s]
+        if sess is None:
+            return
         if kind == "get":
             self.record(s, i, op, lambda: norm(sess.get(op["oid"])))
         elif kind == "get_many":
@@ -548,6 +553,8 @@ class Run:
 
     async def session_task(self, s, ops):
         sess = self.sessions[s]
+        if sess is None:
+            return
         for i, op in ops:
             kind = op["op"]
             if kind == "idle":
@@ -609,7 +616,15 @@ class Run:
             for idx, cfg in enumerate(self.sess_cfg):
                 cfg = dict(cfg)
                 cfg.setdefault("flavour", flavour)
-                self.sessions.append(self.make_session(idx, cfg))
+                try:
+                    self.sessions.append(self.make_session(idx, cfg))
+                except BaseException as e:  # noqa: BLE001 - a refused (valid) configuration is an outcome, not a harness error
+                    if isinstance(e, HarnessError):
+                        raise
+                    self.sessions.append(None)
+                    res = {"s": idx, "i": -1 - idx, "op": {"op": "session"}, "t0": 0, "t1": 0, "tx0": 0, "tx1": 0, "exc": exc_outcome(e)}
+                    self.sim.log("session-failed", idx, res["exc"]["exc"])
+                    self.session_failures.append(res)
             ops = list(enumerate(plan.get("ops", [])))
             if flavour == "sync":
                 for i, op in ops:
